@@ -274,6 +274,10 @@ fn gen_theory(rng: &mut Rng) -> Sexp {
     s(&theory_text(rng))
 }
 fn gen_deep(rng: &mut Rng) -> Sexp {
+    s(&deep_theory_text(rng))
+}
+/// a theory of one or two formulas of the many-pass families (mostly 13 and more passes)
+pub fn deep_theory_text(rng: &mut Rng) -> String {
     let n = 1 + rng.weighted(&[8, 2]);
     let fs: Vec<F> = (0..n)
         .map(|_| match rng.below(4) {
@@ -292,7 +296,7 @@ fn gen_deep(rng: &mut Rng) -> Sexp {
             _ => clsterm::tame_case(rng),
         })
         .collect();
-    s(&fol::Theory { formulas: fs }.to_string())
+    fol::Theory { formulas: fs }.to_string()
 }
 fn gen_program(rng: &mut Rng) -> Sexp {
     s(&program_text(rng))
@@ -323,6 +327,25 @@ fn gen_ug(rng: &mut Rng) -> Sexp {
 fn run_identity(e: &Sexp) -> Result<Sexp, String> {
     Ok(e.clone())
 }
+/// `text_theory_roundtrip "text"`: does the text parse as a theory whose rendering is the text itself?
+/// (ok <formulas>) | (differs) | (err).  Used by the idempotence step of C18 to tell a second CLI run
+/// that started from another tree (printer / parser classes of C15) from a real non-fixpoint.
+fn run_theory_roundtrip(e: &Sexp) -> Result<Sexp, String> {
+    let text = crate::conv::string_of(e)?;
+    Ok(match text.parse::<fol::Theory>() {
+        Err(_) => crate::sexp::l(vec![crate::sexp::a("err")]),
+        Ok(t) => {
+            if t.to_string() == text {
+                crate::sexp::tagged("ok", vec![crate::conv::unum(t.formulas.len())])
+            } else {
+                crate::sexp::l(vec![crate::sexp::a("differs")])
+            }
+        }
+    })
+}
+fn gen_roundtrip(rng: &mut Rng) -> Sexp {
+    gen_theory(rng)
+}
 
 pub fn ops() -> Vec<Op> {
     vec![
@@ -332,5 +355,6 @@ pub fn ops() -> Vec<Op> {
         Op { name: "gen_text_spec", generate: gen_spec, run: run_identity },
         Op { name: "gen_text_outline", generate: gen_outline, run: run_identity },
         Op { name: "gen_text_ug", generate: gen_ug, run: run_identity },
+        Op { name: "text_theory_roundtrip", generate: gen_roundtrip, run: run_theory_roundtrip },
     ]
 }
